@@ -149,6 +149,8 @@ type vfChunksEndEv struct {
 	Seq   int64
 	Side  int
 	RecvQ int
+	T     time.Duration
+	Cum   uint32 // the sender-side cumulative ack point after the packet (moves when a SACK acknowledged the earliest chunk)
 }
 
 type vfHookEv struct {
@@ -285,7 +287,7 @@ func (s *vfSim) onHook(a *Association, side int, ev int, c *chunkPayloadData) {
 		}
 		if ev == vfEvChunksEnd {
 			// the receiver's own view after a packet was processed: does it still see a gap?
-			ce := vfChunksEndEv{Seq: s.net.seq.Add(1), Side: side, RecvQ: a.payloadQueue.size()}
+			ce := vfChunksEndEv{Seq: s.net.seq.Add(1), Side: side, RecvQ: a.payloadQueue.size(), T: s.net.now(), Cum: a.cumulativeTSNAckPoint}
 			s.mu.Lock()
 			s.chunksEnd = append(s.chunksEnd, ce)
 			s.mu.Unlock()
